@@ -104,3 +104,14 @@ Example authority_nonvacuous :
                     [n_a_com; n_star_a_com] = Some n_star_a_com /\
   authority_matched n_a_com [n_star_a_com] = None.
 Proof. split; vm_compute; reflexivity. Qed.
+
+(** the mid-state of a replace keeps the old certificate's names covered *)
+Example replace_nonvacuous :
+  let c1 := mkcert [1%N] [n_a_com] 100 in
+  let c2 := mkcert [2%N] [n_a_com] 200 in
+  let r := crun (fun _ => false) [CAdd (Some c1)] in
+  option_map snd (resolve (fun _ _ => false) r n_a_com) = Some [1%N] /\
+  option_map snd (resolve (fun _ _ => false) (replace_mid (fun _ => false) r c2) n_a_com) = Some [2%N] /\
+  option_map snd (resolve (fun _ _ => false) (fst (replace_cert (fun _ => false) r (Some c2) (Some [1%N]))) n_a_com) = Some [2%N] /\
+  aget [1%N] (store (fst (replace_cert (fun _ => false) r (Some c2) (Some [1%N])))) = None.
+Proof. cbv zeta. repeat split; vm_compute; reflexivity. Qed.
